@@ -26,6 +26,7 @@ SITES = [
     (BL, "SumBlockedOperator.__init__", [("op1.domain_spaces", "op2.domain_spaces"), ("op1.range_spaces", "op2.range_spaces"), ("op1.dual_to_range_spaces", "op2.dual_to_range_spaces")], {}),
     (BL, "ProductBlockedOperator.__init__", [("op2.range_spaces", "op1.domain_spaces")], {}),
     (GF, "GridFunction.__add__", [("self.space", "other.space")], {"self.representation": "primal", "other.representation": "primal"}),
+    (GF, "GridFunction.__sub__", [("self.space", "other.space")], {}),
     (PO, "PotentialOperator.__add__", [("self", "obj")], {}),
     (DO, "_SumDiscreteOperator.__init__", [("op1.shape", "op2.shape")], {}),
     (DO, "_ProductDiscreteOperator.__init__", [("op1.shape[1]", "op2.shape[0]")], {}),
